@@ -269,7 +269,7 @@ def evaluation_functions(db: ProgramDB, cg: CallGraph) -> Tuple[Set[str], Set[st
     return ev, ct - ev
 
 
-def reset_chain_assigns(db: ProgramDB, cls: ClassInfo, method="_reset_only_my_cache_") -> Set[str]:
+def reset_chain_assigns(db: ProgramDB, cls: ClassInfo, method="_reset_only_my_cache_", every_path: bool = False) -> Set[str]:
     """self attributes (re)assigned or cleared by cls's effective reset method, following super() calls."""
     out: Set[str] = set()
     seen = set()
@@ -282,14 +282,30 @@ def reset_chain_assigns(db: ProgramDB, cls: ClassInfo, method="_reset_only_my_ca
                 if m.qualname in seen:
                     return
                 seen.add(m.qualname)
+                cfg = CFG(m)
+
+                def on_every_path(attr: str) -> bool:
+                    """no path from the entry of the reset method to its end avoids every re-creation / clearing of the field"""
+                    def resets(nd):
+                        if nd.ast is None or nd.kind != "stmt":
+                            return False
+                        x = nd.ast
+                        if isinstance(x, ast.Assign) and any(isinstance(t, ast.Attribute) and isinstance(t.value, ast.Name) and t.value.id == "self" and t.attr == attr
+                                                             for t in x.targets):
+                            return True
+                        return any(isinstance(c, ast.Call) and isinstance(c.func, ast.Attribute) and c.func.attr == "clear" and isinstance(c.func.value, ast.Attribute)
+                                   and isinstance(c.func.value.value, ast.Name) and c.func.value.value.id == "self" and c.func.value.attr == attr for c in ast.walk(x))
+                    if not every_path or resets(cfg.nodes[cfg.entry]):
+                        return True
+                    return cfg.find_path(cfg.entry, lambda nd: nd.id == cfg.exit, kinds=("n",), blocked=resets) is None
                 for n in own_nodes(m.node):
                     if isinstance(n, ast.Assign):
                         for t in n.targets:
-                            if isinstance(t, ast.Attribute) and isinstance(t.value, ast.Name) and t.value.id == "self":
+                            if isinstance(t, ast.Attribute) and isinstance(t.value, ast.Name) and t.value.id == "self" and on_every_path(t.attr):
                                 out.add(t.attr)
                     elif isinstance(n, ast.Call) and isinstance(n.func, ast.Attribute) and n.func.attr == "clear":
                         r = n.func.value
-                        if isinstance(r, ast.Attribute) and isinstance(r.value, ast.Name) and r.value.id == "self":
+                        if isinstance(r, ast.Attribute) and isinstance(r.value, ast.Name) and r.value.id == "self" and on_every_path(r.attr):
                             out.add(r.attr)
                     elif isinstance(n, ast.Call) and isinstance(n.func, ast.Attribute) and isinstance(n.func.value, ast.Call) \
                             and isinstance(n.func.value.func, ast.Name) and n.func.value.func.id == "super" \
@@ -413,7 +429,7 @@ def rule_eval_state_reset(db: ProgramDB) -> List[Instance]:
                 if not (_own_eval_closure(db, cg, s) & mut_fns):
                     continue
                 mut_classes.append(s)
-                if fld.name not in reset_chain_assigns(db, s) or not reset_traversal_reaches(db, s):
+                if fld.name not in reset_chain_assigns(db, s, every_path=True) or not reset_traversal_reaches(db, s):
                     not_reset.append(s.name)
             if not mut_classes:
                 out.append(inst("EVAL-STATE-RESET", INFO, cls, key,
@@ -1609,3 +1625,38 @@ def rule_slot_store_linked(db: ProgramDB) -> List[Instance]:
         raise AnalysisError(f"only {n} stores into another node's slot found")
     return out
 
+
+
+# ---------------------------------------------------------------------------------- GRAPH-TRAVERSAL-ALL
+def rule_graph_traversal_all(db: ProgramDB) -> List[Instance]:
+    """The per-evaluation reset, the invalidation of result caches and `_all_variable_instances_` walk the expression graph through the
+    node wrapper's `children` / `descendants`.  A node can have several parents (a condition object used by two queries, a variable used in
+    several conditions); the walk from EACH of them has to reach it.  Rule: `children`, `descendants`, `parents`, `ancestors` hand out all
+    successors / predecessors of the node - no filter (by primary parent or otherwise) between the graph and the caller."""
+    out = []
+    cls = db.cls("RWXNode")
+    want = {"children": ("successors",), "descendants": ("descendants",), "parents": ("predecessors",), "ancestors": ("ancestors",)}
+    n = 0
+    for name, calls in sorted(want.items()):
+        m = cls.methods.get(name)
+        if m is None:
+            raise AnalysisError(f"RWXNode.{name} not found")
+        n += 1
+        rets = [r for r in own_nodes(m.node) if isinstance(r, ast.Return) and r.value is not None]
+        src_ok = any(isinstance(c, ast.Call) and (call_attr(c) in calls or (dotted(c.func) or "").split(".")[-1] in calls) for c in own_nodes(m.node))
+        filt = None
+        for x in own_nodes(m.node):
+            if isinstance(x, (ast.ListComp, ast.GeneratorExp, ast.SetComp)) and any(g.ifs for g in x.generators):
+                filt = x
+            if isinstance(x, ast.Call) and isinstance(x.func, ast.Name) and x.func.id == "filter":
+                filt = x
+            if isinstance(x, (ast.If, ast.IfExp)):
+                filt = x
+        ok = src_ok and filt is None and len(rets) >= 1
+        out.append(inst("GRAPH-TRAVERSAL-ALL", HOLDS if ok else VIOLATION, m, f"RWXNode.{name}[all of them]",
+                        f"hands out what the graph's `{calls[0]}` returns, unfiltered" if ok else
+                        (f"`{unparse(filt)[:90]}` keeps some of the {name} only: " if filt is not None else f"does not read `{calls[0]}` of the graph: ")
+                        + "a node with two parents (a condition shared by two queries) is no longer reached from one of them - the per-evaluation reset of that query "
+                          "skips it, its duplicate-suppression state survives, and the second evaluation of the query loses the rows recorded in the first",
+                        line=(filt or m.node).lineno))
+    return out
